@@ -33,16 +33,18 @@ class Stats(object):
 
 
 def _work_subtree(args):
-    """Explore the whole subtree below one schedule prefix depth-first inside the worker (bounded memory)."""
-    mod, fn, case, ci, root, bound, free_bound, sub_cap = args
+    """Explore the subtrees below some schedule prefixes depth-first inside the worker (bounded memory).  After
+    `budget` executions the unexplored rest of the stack is handed back to the parent, which redistributes it:
+    no subtree is ever dropped, large ones are just spread over the pool."""
+    mod, fn, case, ci, roots, bound, free_bound, budget = args
     f = getattr(importlib.import_module(mod), fn)
     from vf.runner import retry_env
-    stack = [root]
+    stack = list(roots)
     n = pts_total = maxpts = 0
     by_pre = {}
     obs_set = set()
     viols = []
-    capped = False
+    spill = []
     while stack:
         pf = stack.pop()
         pts, viol, obs = retry_env(f, case, pf)
@@ -59,19 +61,20 @@ def _work_subtree(args):
                 vcase = dict(vcase or case)
                 vcase["schedule"] = [pf[0], {str(a): b for a, b in pf[1].items()}]
                 viols.append((sig, what, vcase, detail))
-            break            # the first violating schedule of this subtree is enough
+            break            # the first violating schedule of this task is enough
         stack.extend(S.children(pf[0], pts, bound, free_bound))
-        if sub_cap is not None and n >= sub_cap:
-            capped = bool(stack)
+        if budget is not None and n >= budget and stack:
+            spill = stack
             break
-    return ci, n, pts_total, maxpts, by_pre, obs_set, viols, capped
+    return ci, n, pts_total, maxpts, by_pre, obs_set, viols, spill
 
 
 def explore(ctx, mod, fn, cases, bound, cap=None, chunksize=4, stats=None, stop_case_on_violation=True,
-            free_bound=None):
+            free_bound=None, budget=400):
     """Explore every case (list of JSON-able dicts) under all schedules within the bounds.
     Level 0 (default schedules) runs first, so the simplest counterexamples come first; every first-level
-    alternative is then explored as a subtree inside one worker (depth-first, bounded memory)."""
+    alternative is then explored as a subtree inside one worker (depth-first, bounded memory); a worker that has
+    run `budget` executions returns the rest of its stack, which is redistributed in the next round."""
     st = stats or Stats()
     dead = set()
     roots = [(mod, fn, cases[ci], (0, {}), bound, free_bound) for ci in range(len(cases))]
@@ -95,35 +98,91 @@ def explore(ctx, mod, fn, cases, bound, cap=None, chunksize=4, stats=None, stop_
     if not level1:
         st.bound_completed = bound
         return st
-    sub_cap = None
-    if cap is not None:
-        sub_cap = max(2000, (cap * 4) // max(1, len(level1)))
     # largest subtrees first (alternatives early in an execution have the most points after them)
     level1.sort(key=lambda x: x[1][0])
-    tasks = [(mod, fn, cases[ci], ci, pf, bound, free_bound, sub_cap) for ci, pf in level1]
+    tasks = [(mod, fn, cases[ci], ci, [pf], bound, free_bound, budget) for ci, pf in level1]
     last_note = 0
-    for ci, n, pts_total, maxpts, by_pre, obs_set, viols, capped in ctx.pimap_unordered(_work_subtree, tasks, 1):
-        st.executions += n
-        st.per_case[ci] = st.per_case.get(ci, 0) + n
-        st.points += pts_total
-        st.max_points = max(st.max_points, maxpts)
-        for k, c in by_pre.items():
-            st.by_preemptions[k] = st.by_preemptions.get(k, 0) + c
-        if len(st.observations) < 200000:
-            st.observations.update((ci, o) for o in obs_set)
-        for sig, what, vcase, detail in viols:
-            ctx.violation(sig, what, vcase, detail)
-        if capped:
-            st.capped = True
-        if st.executions - last_note >= 50000:
-            last_note = st.executions
-            ctx.note("... %d executions so far, %.0fs" % (st.executions, ctx.elapsed()))
-        if cap is not None and st.executions >= cap:
-            st.capped = True
-            break
+    st.rounds = 0
+    while tasks and not st.capped:
+        st.rounds += 1
+        spilled = {}
+        for ci, n, pts_total, maxpts, by_pre, obs_set, viols, spill in ctx.pimap_unordered(_work_subtree, tasks, 1):
+            st.executions += n
+            st.per_case[ci] = st.per_case.get(ci, 0) + n
+            st.points += pts_total
+            st.max_points = max(st.max_points, maxpts)
+            for k, c in by_pre.items():
+                st.by_preemptions[k] = st.by_preemptions.get(k, 0) + c
+            if len(st.observations) < 200000:
+                st.observations.update((ci, o) for o in obs_set)
+            for sig, what, vcase, detail in viols:
+                ctx.violation(sig, what, vcase, detail)
+            if viols and stop_case_on_violation:
+                dead.add(ci)
+            if spill:
+                spilled.setdefault(ci, []).extend(spill)
+            if st.executions - last_note >= 50000:
+                last_note = st.executions
+                ctx.note("... %d executions so far, %.0fs" % (st.executions, ctx.elapsed()))
+            if cap is not None and st.executions >= cap:
+                st.capped = True
+                ctx.close()          # drop the queued tasks: a later exploration gets a fresh pool
+                break
+        tasks = []
+        for ci, pfs in spilled.items():
+            if ci in dead:
+                continue
+            # shallow prefixes (large subtrees) alone, the rest packed
+            pfs.sort(key=lambda p: (len(p[1]), p[0]))
+            pack = 16
+            for i in range(0, len(pfs), pack):
+                tasks.append((mod, fn, cases[ci], ci, pfs[i:i + pack], bound, free_bound, budget))
     if not st.capped:
         st.bound_completed = bound
     return st
+
+
+def explore_phases(ctx, mod, fn, phases, chunksize=8):
+    """phases = [dict(name, cases, bound, free_bound, cap=None)] explored in order (cheapest first); a phase is
+    skipped once a violation was found.  Returns (merged Stats, [per-phase summary])."""
+    total = Stats()
+    out = []
+    import os
+    only, sel = os.environ.get("VF_ONLY"), os.environ.get("VF_PHASES")
+    if only or sel:
+        # debugging aid: restrict the cases (python expression over c) / the phases; recorded in the evidence
+        phases = [dict(ph, cases=[c for c in ph["cases"] if not only or eval(only, {"c": c})])
+                  for ph in phases if not sel or ph["name"] in sel.split(",")]
+        ctx.note("RESTRICTED RUN (debug): VF_ONLY=%r VF_PHASES=%r" % (only, sel))
+        out.append({"restricted_debug_run": {"VF_ONLY": only, "VF_PHASES": sel}})
+    for ph in phases:
+        if ctx.violations:
+            out.append({"phase": ph["name"], "skipped": "violation found in an earlier phase"})
+            continue
+        if not ph["cases"]:
+            continue
+        t0 = ctx.elapsed()
+        st = explore(ctx, mod, fn, ph["cases"], ph["bound"], cap=ph.get("cap"), chunksize=chunksize,
+                     free_bound=ph.get("free_bound"))
+        summ = {"phase": ph["name"], "cases": len(ph["cases"]), "preemption_bound": ph["bound"],
+                "free_deviation_bound": ph.get("free_bound"), "executions": st.executions,
+                "by_preemptions": {str(k): n for k, n in sorted(st.by_preemptions.items())},
+                "completed_within_bounds": not st.capped, "cap": ph.get("cap"), "wall_s": round(ctx.elapsed() - t0, 1)}
+        out.append(summ)
+        ctx.note("phase %(phase)s: cases=%(cases)d bound=%(preemption_bound)s free=%(free_deviation_bound)s "
+                 "executions=%(executions)d complete=%(completed_within_bounds)s %(wall_s)ss" % summ)
+        total.executions += st.executions
+        total.points += st.points
+        total.max_points = max(total.max_points, st.max_points)
+        for k, n in st.by_preemptions.items():
+            total.by_preemptions[k] = total.by_preemptions.get(k, 0) + n
+        if len(total.observations) < 400000:
+            total.observations.update((ph["name"], o) for o in st.observations)
+        total.capped = total.capped or st.capped
+        for k, n in st.per_case.items():
+            key = "%s:%s" % (ph["name"], ph["cases"][k])
+            total.per_case[key] = n
+    return total, out
 
 
 def schedule_from_case(case):
